@@ -58,8 +58,8 @@ def gen_spec(ch, asgi):
     s['media'] = ch.choice([{'a': 1}, ['x', 2, None], 'just a string', {'ü': '✓'}], 'media') if src & 4 else None
     s['stream'] = None
     if src & 8:
-        kinds = ['agen', 'aiter_obj', 'aiter_none', 'afile', 'afile_noclose'] if asgi else \
-            ['list', 'gen', 'iter_obj', 'file', 'file_noclose']
+        kinds = ['agen', 'aiter_obj', 'aiter_none', 'afile', 'afile_noclose', 'afile_short'] if asgi else \
+            ['list', 'gen', 'iter_obj', 'file', 'file_noclose', 'file_short']
         n = ch.draw(5, 'n_chunks')
         chunks = [('c%d' % i) * (1 + ch.draw(6, 'clen')) for i in range(n)]
         s['stream'] = {'kind': ch.choice(kinds, 'stream_kind'), 'chunks': chunks}
@@ -131,14 +131,16 @@ def make_stream(spec, asgi, fault, cnt):
             def close(self):
                 cnt.closes += 1
         return It()
-    if kind in ('file', 'file_noclose'):
+    if kind in ('file', 'file_noclose', 'file_short'):
         buf = io.BytesIO(b''.join(c for c in seq if c))
 
         class F(object):
             def read(self, n=-1):
-                step()
+                i = step()
+                if kind == 'file_short' and n > 1 and i % 2 == 0:
+                    return buf.read(max(1, n // 2))     # a legal short read: more data follows
                 return buf.read(n)
-        if kind == 'file':
+        if kind in ('file', 'file_short'):
             def close(self):
                 cnt.closes += 1
             F.close = close
@@ -168,7 +170,7 @@ def make_stream(spec, asgi, fault, cnt):
             async def close(self):
                 cnt.closes += 1
         return AIt()
-    if kind in ('afile', 'afile_noclose'):
+    if kind in ('afile', 'afile_noclose', 'afile_short'):
         buf = io.BytesIO(b''.join(c for c in seq if c))
 
         none_at = fault[1] if fault and fault[0] == 'none' else None
@@ -178,8 +180,10 @@ def make_stream(spec, asgi, fault, cnt):
                 i = step()
                 if none_at is not None and i == none_at:
                     return None       # "no data right now": the framework sends an empty chunk
+                if kind == 'afile_short' and n > 1 and i % 2 == 0:
+                    return buf.read(max(1, n // 2))     # a legal short read: more data follows
                 return buf.read(n)
-        if kind == 'afile':
+        if kind in ('afile', 'afile_short'):
             async def close(self):
                 cnt.closes += 1
             AF.close = close
@@ -201,7 +205,7 @@ def expected_stream_bytes(spec, fault, asgi):
                 break
             continue
         out += c
-    if kind in ('file', 'file_noclose', 'afile', 'afile_noclose'):
+    if kind in ('file', 'file_noclose', 'file_short', 'afile', 'afile_noclose', 'afile_short'):
         return b''.join(c for c in seq if c)
     return out
 
@@ -236,9 +240,13 @@ def resolve_status(sv):
 class _Env(Env):
     def __init__(self):
         self.conn = None
+        self.conn2 = None
 
     def actions(self):
-        return self.conn.actions(2, 3, 3)
+        acts = self.conn.actions(2, 3, 3)
+        if self.conn2 is not None:
+            acts = list(acts) + list(self.conn2.actions(2, 3, 3))
+        return acts
 
 
 class _Sim(object):
@@ -366,6 +374,13 @@ def run(ctx):
             _STREAM_BLOCK_SIZE = spec['block']
         app = A(response_type=resp_type) if resp_type else A()
     app.add_route('/r', Res())
+    if asgi:
+        class Other(object):
+            async def on_get(self, req, resp):
+                resp.status = 203
+                resp.text = 'a different response'
+                resp.set_header('X-Other', 'yes')
+        app.add_route('/other', Other())
 
     # ---- execute -------------------------------------------------------------------
     wrapper = None
@@ -386,6 +401,12 @@ def run(ctx):
         env.conn = conn
         result = {}
 
+        # a follow-up request on the same app: a server (or middleware) may still hold the
+        # first response's event objects at that time -- they must not change under it
+        scope2 = http_scope(method='GET', path='/other')
+        conn2 = Conn(sim, 'http', scope2, body_events([]), HttpMonitor(), lost_mode='drop', name='F')
+        env.conn2 = conn2
+
         async def driver():
             try:
                 await app(scope, conn.receive, conn.send)
@@ -393,8 +414,14 @@ def run(ctx):
                 if not conn.send_cancelled:
                     raise
                 result['cancelled'] = True
+                return
             except Exception as ex:
                 result['exc'] = ex
+                return
+            try:
+                await app(scope2, conn2.receive, conn2.send)
+            except Exception as ex:
+                result['exc2'] = ex
 
         finished = False
         try:
@@ -557,8 +584,9 @@ def run(ctx):
     if n_ck != spec['cookies']:
         ctx.violate('resp.headers', '%d Set-Cookie lines for %d cookies' % (n_ck, spec['cookies']), **sig)
     # close count on the stream object
-    if spec['stream'] is not None and spec['stream']['kind'] in ('gen', 'iter_obj', 'file', 'aiter_obj',
-                                                                 'aiter_none', 'afile'):
+    if spec['stream'] is not None and spec['stream']['kind'] in ('gen', 'iter_obj', 'file', 'file_short',
+                                                                 'aiter_obj', 'aiter_none', 'afile',
+                                                                 'afile_short'):
         if cnt.calls > 0 and cnt.closes != 1:
             why = 'stream_raised' if cnt.raised else 'send_cancelled' if (asgi and conn.send_cancelled) else \
                 'send_failed' if (asgi and conn.send_failed) else \
